@@ -45,6 +45,9 @@ std::pair<bool, VectorXd> KFCorrection::getLikelihood()
 
 void KFCorrection::correctStep(const GaussianMixture& pred_state, GaussianMixture& corr_state)
 {
+    /* No likelihood is available until this correction has used a measurement. */
+    innovations_.resize(0, 0);
+
     /* Get the current measurement if available. */
     bool valid_measurement;
     Data measurement;
